@@ -16,4 +16,18 @@ CLAIMS = {
              "tree and exactly-once delivery are not decided.",
         technique="who-may-call over a whole-repo use index; CFG dominance/must-pass; deque end discipline; merge-order normalisation",
         ref="4/C01"),
+    "C02": dict(
+        text="Static analysis of structural necessary conditions of queue/relay/boolean events: no handler forwards "
+             "its own **kwargs (and with it an outer QueuedEvent) into another queue event (all post_queue sites of "
+             "the repository); the async-handler adapter waits before starting its task and clears on every "
+             "non-raising path incl. cancellation; the sequential dispatcher awaits an outstanding wait inside the "
+             "handler loop, after the call, with a fresh Event and a fresh QueuedEvent per handler; relay update and "
+             "boolean early-exit are guarded by exactly their type/result tests and the callback gets the dict the "
+             "handlers updated; every internal QueuedEvent.wait() site in the repository is cleared, parked in a "
+             "field that a tabled completion method clears, or captured by a clearing callback on every path; the "
+             "counting waits clear at zero; event-type tokens and namedtuple indices agree between poster and "
+             "dispatcher; QueuedEvent wait/clear typestate. Lost wake-ups of arbitrary user handlers and the "
+             "relative timing of clears are not decided.",
+        technique="taint of **kwargs into post_queue; CFG must-pass/dominance/facts for wait-clear typestate; table agreement",
+        ref="4/C02"),
 }
